@@ -30,7 +30,7 @@ class C07(Prop):
     header = 'From RP Require Import Exec.Model Exec.Oracle.'
     clauses = ['announced_once', 'handed_on_once', 'unscheduled_once', 'not_collected_and_canceled',
                'outcome_attached', 'announced_before_handed_on', 'exit_code_truthful', 'named_examined_after_launch',
-               'canceled_only_if_running_when_polled']
+               'canceled_only_if_running_when_polled', 'handler_examines_every_named_uid']
     row_fn = 'c07_row'
     corr_name = ('Exec.Model.run (istep/cstep/wstep/tstep/kstep) vs the real Popen.work_cb/work/_launch_task/'
                  '_watch/_check_running/cancel_task/control_cb/_to_watcher under the line-granular scheduler')
@@ -86,8 +86,10 @@ class C07(Prop):
                 yield dict(sc, sched=pre + mid + [['X', 1, 3]] + gen_sched(rng, sc, rng.randint(0, 12)))
         for c in X.exit_before_poll_cases(rng):
             yield c
+        for c in X.bulk_cancel_cases(rng, 4 if tier == 'quick' else 30):
+            yield c
         # the bulk limit of the watcher (MAX_QUEUE_BULKSIZE = 100): more than a full bulk waits in the watch queue
-        for nbig in ((100, 113) if tier == 'quick' else (100, 101, 107, 120, 130, 205)):
+        for nbig in ((101,) if tier == 'quick' else (100, 101, 107, 113, 120, 130, 205)):
             yield X.big_case(nbig, rng)
         if tier == 'thorough':
             for c in self.enumerated():
